@@ -9,6 +9,8 @@ rows = []
 for f in sorted(glob.glob(os.path.join(VERIF, "seeded", "*", "meta.json"))):
     m = json.load(open(f))
     caught = ", ".join(sorted({k.split("@")[0] for k in m.get("caught_by", [])})) or "—"
+    if m.get("no_longer_manifests"):
+        caught += " (before fix F12; the change no longer manifests)"
     missed = ", ".join(sorted({k.split("@")[0] for k, v in m.get("check_runs", {}).items()
                                if not (v["exit"] == 1 and v["violation_lines"])})) or ""
     mons = []
